@@ -174,10 +174,11 @@ def obligations(tier, seed):
             for a, b in zip(cuts, cuts[1:]):
                 obs.append(Ob(
                     name="wrap_%s_ir%d_w%d" % (kind, i, a), params=[("W", "int")], pre=["%d <= W < %d" % (a, b)],
-                    body="H.wrap(%r, %d, W, {ACTIVE})" % (kind, i), witness=(a + (b - a) // 2,),
+                    body="H.wrap(%r, %d, W, {ACTIVE})" % (kind, i), witness=(max(a + (b - a) // 2, 20) if b > 20 else a,),
                     bounds="every width %d <= W < %d (symbolic int); emitter %s on pool IR %d (concrete text); word_wrap on vs off" % (a, b, kind, i),
                     timeout=240 if tier == "quick" else 1200, path_timeout=120, funcs=FUNCS,
-                    skip_kf=["KF-C18-numpydoc-wrap"] if kind == "numpydoc" else []))
+                    kf=[("KF-C18-long-word-break", "W < 20")] if a < 20 < b else [],
+                    skip_kf=(["KF-C18-numpydoc-wrap"] if kind == "numpydoc" else []) + (["KF-C18-long-word-break"] if b <= 20 else [])))
     obs.append(Ob(name="env_read", params=[("s", "str")], pre=["1 <= len(s) <= 3", "all(c in '0123456789' for c in s)", "s[0] != '0'", "int(s) >= 1"],
                   body="H.env_read(s)", witness=("60",), kind="F",
                   bounds="DOCTRANS_LINE_LENGTH = any decimal string of 1..3 digits without leading zero (positive); pure_utils' own two statements "
